@@ -842,6 +842,10 @@ def check_models(ctx, repo):
     smod = repo.module("sktime/utils/validation/series.py")
     passthru.decide(ctx, "R6", "check_time_index:returns-index", repo, smod, repo.func(smod.relpath, "check_time_index"),
                     repo.func(smod.relpath, "check_time_index").args.args[0].arg, "check_time_index")
+    # the integer-setting validators the interpreter inlines: evaluated on a witness table (C20's oracle) so that a
+    # rewritten / merged validator that rejects a valid setting (e.g. numpy integers) or admits an invalid one is decided
+    from . import _c20_oracle as _orc
+    _orc.run_all(ctx, repo, rule="R6", only={"is_int", "check_window_length", "check_step_length"})
     it = _c02.new_interp(repo)
     fhmod = repo.module(_c02.FH_PATH)
     me = _c02.fh_obj(it, 0, True)
